@@ -117,6 +117,39 @@ type C02Script struct {
 	SkiSeed  string    `json:"skiSeed"`  // hex, for random SKIs
 	DialSame bool      `json:"dialSame"` // out: the hub dials exactly the SKI the server presents
 	NoPath   bool      `json:"noPath"`   // out: the server answers 404 on the announced path and upgrades only on "/"
+	// out: a second, honest peer (library certificate) is registered and announced StallMs/3 after the
+	// first report, while the server of the first dial still sits StallMs in its TLS handshake - two
+	// outbound dials to different SKIs in flight at once. PresentPeer2: the server at the first address
+	// presents the certificate of that second peer (a paired device that announces somebody else's SKI
+	// at an address of its own).
+	Overlap      bool `json:"overlap,omitempty"`
+	StallMs      int  `json:"stallMs,omitempty"`
+	PresentPeer2 bool `json:"presentPeer2,omitempty"`
+}
+
+// stallListener: the first read of every accepted connection (the TLS client hello) waits d.
+type stallListener struct {
+	net.Listener
+	d time.Duration
+}
+
+type stallConn struct {
+	net.Conn
+	once sync.Once
+	d    time.Duration
+}
+
+func (c *stallConn) Read(b []byte) (int, error) {
+	c.once.Do(func() { time.Sleep(c.d) })
+	return c.Conn.Read(b)
+}
+
+func (l *stallListener) Accept() (net.Conn, error) {
+	c, err := l.Listener.Accept()
+	if err != nil {
+		return nil, err
+	}
+	return &stallConn{Conn: c, d: l.d}, nil
 }
 
 type built struct {
@@ -468,9 +501,11 @@ func judgeInbound(sc C02Script) (key, msg string) {
 // ---- outbound -------------------------------------------------------------------------------
 
 type outResult struct {
-	Accepted bool // TLS + upgrade completed on the harness server
-	Binary   int  // binary frames the hub sent
-	Err      string
+	Accepted  bool // TLS + upgrade completed on the harness server
+	Binary    int  // binary frames the hub sent
+	Err       string
+	Presented string // hex SKI of the certificate the server at the dialled address presented
+	Peer2     int    // binary frames the honest second peer received
 }
 
 func runOutbound(sc C02Script, b *built) (*outResult, string) {
@@ -486,7 +521,50 @@ func runOutbound(sc C02Script, b *built) (*outResult, string) {
 	var mu sync.Mutex
 	done := make(chan struct{}, 4)
 	up := websocket.Upgrader{CheckOrigin: func(*http.Request) bool { return true }, Subprotocols: []string{"ship"}}
-	srv := &http.Server{TLSConfig: &tls.Config{Certificates: []tls.Certificate{*b.cert}, ClientAuth: tls.RequireAnyClientCert, MinVersion: tls.VersionTLS12},
+	presentCert := *b.cert
+	presented := hex.EncodeToString(b.ski)
+	var ski2 string
+	port2 := 0
+	if sc.Overlap {
+		c2, err := cert.CreateCertificate("unit", "peer2", "DE", "honest-second-peer")
+		if err != nil {
+			return nil, err.Error()
+		}
+		leaf, _ := x509.ParseCertificate(c2.Certificate[0])
+		ski2, _ = cert.SkiFromCertificate(leaf)
+		srv2 := &http.Server{TLSConfig: &tls.Config{Certificates: []tls.Certificate{c2}, ClientAuth: tls.RequireAnyClientCert, MinVersion: tls.VersionTLS12},
+			Handler: http.HandlerFunc(func(w http.ResponseWriter, r *http.Request) {
+				c, err := up.Upgrade(w, r, nil)
+				if err != nil {
+					return
+				}
+				defer c.Close()
+				_ = c.SetReadDeadline(time.Now().Add(3 * time.Second))
+				for {
+					typ, _, err := c.ReadMessage()
+					if err != nil {
+						return
+					}
+					if typ == websocket.BinaryMessage {
+						mu.Lock()
+						res.Peer2++
+						mu.Unlock()
+					}
+				}
+			})}
+		l2, err := tls.Listen("tcp", "127.0.0.1:0", srv2.TLSConfig)
+		if err != nil {
+			return nil, err.Error()
+		}
+		go func() { _ = srv2.Serve(l2) }()
+		defer srv2.Close()
+		port2 = l2.Addr().(*net.TCPAddr).Port
+		if sc.PresentPeer2 {
+			presentCert, presented = c2, ski2
+		}
+	}
+	res.Presented = presented
+	srv := &http.Server{TLSConfig: &tls.Config{Certificates: []tls.Certificate{presentCert}, ClientAuth: tls.RequireAnyClientCert, MinVersion: tls.VersionTLS12},
 		Handler: http.HandlerFunc(func(w http.ResponseWriter, r *http.Request) {
 			if sc.NoPath && r.URL.Path != "/" && r.URL.Path != "" {
 				http.NotFound(w, r) // the hub then retries without the path
@@ -514,27 +592,47 @@ func runOutbound(sc C02Script, b *built) (*outResult, string) {
 			c.Close()
 			done <- struct{}{}
 		})}
-	l, err := tls.Listen("tcp", "127.0.0.1:0", srv.TLSConfig)
+	raw, err := net.Listen("tcp", "127.0.0.1:0")
 	if err != nil {
 		return nil, err.Error()
 	}
+	var inner net.Listener = raw
+	if sc.Overlap {
+		inner = &stallListener{Listener: raw, d: time.Duration(sc.StallMs) * time.Millisecond}
+	}
+	l := tls.NewListener(inner, srv.TLSConfig)
 	go func() { _ = srv.Serve(l) }()
 	defer srv.Close()
-	port := l.Addr().(*net.TCPAddr).Port
+	port := raw.Addr().(*net.TCPAddr).Port
 
-	presented := hex.EncodeToString(b.ski)
 	dialled := presented
-	if !sc.DialSame || len(b.ski) != 20 {
+	if !sc.DialSame || len(presented) != 40 {
 		dialled = strings.Repeat("ab", 20)
-		if b.foreign != "" {
+		if b.foreign != "" && !sc.PresentPeer2 {
 			dialled = b.foreign // the hub wants the victim and gets the impostor
 		}
 	}
+	if sc.PresentPeer2 && sc.Overlap {
+		// the second peer answers at the address announced for somebody else
+		dialled = strings.Repeat("ab", 20)
+		if len(b.ski) == 20 {
+			dialled = hex.EncodeToString(b.ski)
+		}
+	}
 	th.h.RegisterRemoteSKI(dialled)
+	if sc.Overlap {
+		th.h.RegisterRemoteSKI(ski2)
+	}
 	th.prov.CB(map[string]string{"txtvers": "1", "id": "peer-id", "path": "/ship/", "ski": dialled, "register": "false"}, "peer", "", []net.IP{net.ParseIP("127.0.0.1")}, port, false)
+	wait := 1500 * time.Millisecond
+	if sc.Overlap {
+		time.Sleep(time.Duration(sc.StallMs/3) * time.Millisecond)
+		th.prov.CB(map[string]string{"txtvers": "1", "id": "peer2-id", "path": "/ship/", "ski": ski2, "register": "false"}, "peer2", "", []net.IP{net.ParseIP("127.0.0.1")}, port2, false)
+		wait += 2 * time.Duration(sc.StallMs) * time.Millisecond
+	}
 	select {
 	case <-done:
-	case <-time.After(1500 * time.Millisecond):
+	case <-time.After(wait):
 	}
 	time.Sleep(50 * time.Millisecond)
 	mu.Lock()
@@ -555,13 +653,19 @@ func judgeOutbound(sc C02Script) (key, msg string) {
 	if b.cert == nil {
 		return "", ""
 	}
-	presented := hex.EncodeToString(b.ski)
-	desc := fmt.Sprintf("dialled SKI %s, server presented %s certificate with SKI %q (bound to its key: %v): upgrade completed=%v, %d SHIP frames sent by the hub", dialled, sc.CertKind, presented, b.bound, r.Accepted, r.Binary)
+	presented, bound, kind := r.Presented, b.bound, sc.CertKind
+	if sc.Overlap && sc.PresentPeer2 {
+		bound, kind = true, "the second peer's"
+	}
+	desc := fmt.Sprintf("dialled SKI %s, server presented %s certificate with SKI %q (bound to its key: %v): upgrade completed=%v, %d SHIP frames sent by the hub", dialled, kind, presented, bound, r.Accepted, r.Binary)
+	if sc.Overlap {
+		desc += fmt.Sprintf("; a second peer was dialled while the first dial sat %d ms in TLS (it received %d SHIP frames)", sc.StallMs, r.Peer2)
+	}
 	if r.Binary > 0 {
 		if presented != dialled {
 			return "C02/out-ship-to-wrong-ski", "the hub sent SHIP messages to a server whose certificate yields another SKI than the one dialled: " + desc
 		}
-		if !b.bound {
+		if !bound {
 			k := "C02/unbound-ski-accepted"
 			if b.foreign != "" {
 				k = "C02/foreign-ski-accepted"
@@ -569,7 +673,7 @@ func judgeOutbound(sc C02Script) (key, msg string) {
 			return k, "the hub sent SHIP messages to a server whose SKI is not bound to its key: " + desc
 		}
 	}
-	if sc.CertKind == "lib" && presented == dialled && r.Binary == 0 {
+	if sc.CertKind == "lib" && !sc.PresentPeer2 && presented == dialled && r.Binary == 0 {
 		return "C02/out-refused-matching-peer", "the hub did not start SHIP with the dialled peer: " + desc
 	}
 	return "", ""
@@ -609,6 +713,11 @@ func genC02(t *rapid.T, dir string) C02Script {
 	if dir == "out" {
 		sc.TLSMax = tls.VersionTLS13
 		sc.NoPath = rapid.IntRange(0, 2).Draw(t, "noPath") == 0
+		if rapid.IntRange(0, 3).Draw(t, "overlap") == 0 {
+			sc.Overlap = true
+			sc.StallMs = rapid.SampledFrom([]int{30, 90, 240}).Draw(t, "stallMs")
+			sc.PresentPeer2 = rapid.Bool().Draw(t, "presentPeer2")
+		}
 	}
 	return sc
 }
@@ -620,7 +729,7 @@ func runC02(t *testing.T, dir string) {
 		sc := genC02(rt, dir)
 		key, msg := judge(sc)
 		nt := sc.CertKind != "none"
-		st.Case(sc, nt, "dir:"+dir, "cert:"+sc.CertKind, fmt.Sprintf("tls:%x", sc.TLSMax), "protos:"+strings.Join(sc.Protos, "+"), "key:"+sc.KeyKind)
+		st.Case(sc, nt, "dir:"+dir, fmt.Sprintf("overlapping-dials:%v", sc.Overlap), "cert:"+sc.CertKind, fmt.Sprintf("tls:%x", sc.TLSMax), "protos:"+strings.Join(sc.Protos, "+"), "key:"+sc.KeyKind)
 		if key != "" {
 			st.Fail(key, msg, sc)
 			rt.Fatalf("%s: %s", key, msg)
